@@ -248,9 +248,13 @@ def doc_job(j):
                     probs.append("%s: field %s changed" % (c, k))
             compare_asm(cin.get("asm"), cout.get("asm"), fixed, c, probs, out["stats"])
         # the tool's own parser re-reads the output to the same document
-        with gasol.Silence():
-            again = parse_asm(p.optimized_file).to_json()
-        if norm_push0(again) != norm_push0(dout):
+        try:
+            with gasol.Silence():
+                again = parse_asm(p.optimized_file).to_json()
+        except Exception as e:
+            again = None
+            probs.append("the tool's own parser cannot re-read the emitted document: %s: %s" % (type(e).__name__, str(e)[:100]))
+        if again is not None and norm_push0(again) != norm_push0(dout):
             probs.append("parse_asm(output).to_json() differs from the output (beyond the PUSH 0 / PUSH0 spelling)")
         out["problems"] = probs[:20]
     finally:
